@@ -299,10 +299,11 @@ class SoftTTLCache(Entity):
             self._coalesced_requests += 1
             # Wait for backing store latency (simulating waiting for the refresh)
             yield self._backing_store.read_latency
-            # Check if the refresh completed
-            if key in self._cache:
-                return self._cache[key].value
-            return None
+            # Use the refreshed entry if the refresh produced one; otherwise
+            # (refresh not finished, key gone, entry still expired) fetch below.
+            entry = self._cache.get(key)
+            if entry is not None and entry.is_valid(self.now, self._hard_ttl):
+                return entry.value
 
         # Fetch from backing store (blocking)
         value = yield from self._backing_store.get(key)
